@@ -225,14 +225,16 @@ struct Ctx {
     std::vector<bool> prefix; size_t pos=0; std::vector<Cond> pc; size_t nforks_total=0, max_depth=200;
     struct Work { std::vector<bool> prefix; }; std::vector<Work> work;
     size_t undecided_budget=2;   // flipped prefixes whose feasibility the solver cannot decide in time are explored only this many times per case
+    bool infeasible_now=false;   // set when a structural check found the current path condition unsatisfiable
     bool need_witness=false; void acquire_witness();   // defined after the solver
     bool concrete_mode=false;          // replay: every variable is a constant, no forking expected
     // events
     struct Event { std::string kind, stage; }; std::vector<Event> events; std::string stage; size_t npoison=0;
     size_t nf_checks=0, nf_mismatch=0, nf_skipped=0; size_t havoc_epoch=0;
+    std::map<id_t,mpq_class> lower_bounds;   // value -> assumed constant lower bound (hx::assume(le(const, value)))
     std::vector<std::string> assumed;  // extra SMT assumptions of this path (hx::assume), already emitted text + their atoms
     std::set<id_t> assumed_atoms;
-    void reset_path() { pos=0; pc.clear(); nz.clear(); nz_set.clear(); assumed.clear(); assumed_atoms.clear(); }
+    void reset_path() { lower_bounds.clear(); infeasible_now=false; pos=0; pc.clear(); nz.clear(); nz_set.clear(); assumed.clear(); assumed_atoms.clear(); }
 };
 inline Ctx &ctx() { static Ctx c; return c; }
 
@@ -314,7 +316,8 @@ inline bool decide(int cmp, id_t a, id_t b, bool &out) { // constant folding
     if (a==b) { out = (cmp!=LT); return true; }
     if (c.vis_const(a,x) && c.vis_const(b,y)) { out = cmp==EQ ? x==y : cmp==LT ? x<y : x<=y; return true; }
     id_t d=c.vadd(a,b,-1); if (c.vis_const(d,x)) { out = cmp==EQ ? x==0 : cmp==LT ? x<0 : x<=0; return true; }
-    if (cmp==EQ && c.nz_set.count(d)) { out=false; return true; }                  // a divisor / assumed non-zero value
+    if (cmp==EQ && c.nz_set.count(d)) { out=false; return true; }
+    { auto lb=c.lower_bounds.find(a); if (lb!=c.lower_bounds.end() && c.vis_const(b,y)) { if (cmp==LT && lb->second>=y) { out=false; return true; } if (cmp!=LT && lb->second>y) { out=false; return true; } } }   // assumed  lb <= a                  // a divisor / assumed non-zero value
     // syntactic sign: d = n/den with all-nonneg (or all-nonpos) terms
     Ctx::Val v=c.vals[d];
     if (c.mono_nonneg(v.d)) {
@@ -515,6 +518,7 @@ inline void s_prove_eq_vec(const std::string &name, const std::vector<sym> &a, c
     std::vector<F> fs; for (size_t i=0;i<a.size();++i) fs.push_back(eq(a[i],b[i])); s_prove_all(name,fs); }
 // assume a formula for the rest of this path (a stated precondition of the property)
 inline void s_assume(const F &f) { Ctx &c=ctx(); Emit e; std::string t=smt_f(f,e); std::set<id_t> vs; f_dens(f,vs); for (id_t v : vs) { std::string d=smt_den_nz(v,e); if (d!="true") c.assumed.push_back(d); } c.assumed.push_back(t); for (id_t a : e.done) c.assumed_atoms.insert(a);
+    { mpq_class k; if (f.k==F::REL && f.cmp==LE && c.vis_const(f.a,k)) { auto it=c.lower_bounds.find(f.b); if (it==c.lower_bounds.end() || it->second<k) c.lower_bounds[f.b]=k; } }
     if (f.k==F::NOT && f.kids[0].k==F::REL && f.kids[0].cmp==EQ) { id_t d=c.vadd(f.kids[0].a,f.kids[0].b,-1); c.nz_set.insert(d); }   // known non-zero: avoids a spurious fork
     if (!c.need_witness && !eval_f(f)) c.need_witness=true; }   // default witness violates the assumption: fetch a model at the next fork
 // every division performed so far on this path is guarded: the path condition alone implies divisor != 0
@@ -529,7 +533,7 @@ inline void s_require(const std::string &name, bool ok, const std::string &detai
     Ctx &c=ctx(); Violation v; v.obligation=name; v.detail=detail; v.prefix=std::vector<bool>(c.prefix.begin(), c.prefix.begin()+std::min(c.pos,c.prefix.size())); v.have_model=false;
     // a model of the path condition makes the failure replayable
     Emit e; QueryResult q=run_query({},e,true); if (q.verdict=="sat") { v.have_model=true; for (auto &kv : q.model) { v.model[kv.first]=kv.second.exact; if (!kv.second.rational) v.have_model=false; } }
-    if (q.verdict=="unsat") { r.discharged++; return; }     // path infeasible: vacuous
+    if (q.verdict=="unsat") { r.discharged++; c.infeasible_now=true; return; }     // path infeasible: vacuous; the caller may stop the path
     r.violations.push_back(v); }
 // normaliser validation: raw operation log vs normal form at the current witness
 inline size_t &q_epoch() { static size_t e=0; return e; }
